@@ -161,3 +161,75 @@ Theorem C14_connected_refuted : exists evs c pe closed, wf (evs ++ [Enrol c pe c
   registered (run_with add_peer_v1 true (evs ++ [Enrol c pe closed])) (remote c) = false.
 Proof. exact announce_refuted_v1. Qed.
 Print Assumptions C14_connected_refuted.
+
+(* ---- composition with C04 (and C18) (proofs/Compose_p2p.v) ---------------------------------------------
+   The premise [wf] of the theorems above is discharged for histories whose Enrol events are what
+   handleConnectReq / Connect hand to addPeer: the (address, role) a handshake of model/Handshake.v ended
+   with (either direction; any configuration, script, oracle answers, write failures), run on a
+   connection whose authenticated remote peer id is pidb with the address-of-peer-id oracle answering
+   F pidb for one function F (getEthAddress) -- Compose_p2p.from_handshakes.  Handshake.v writes addresses
+   and peer ids as byte strings and the registry indexes by numbers: enc_pid / enc_addr are any injective
+   numberings (Compose_p2p.code is one).
+   Non-vacuity: Compose_p2p.ex_from_handshakes, Compose_p2p.ex_wf. *)
+From MevVerif Require model.Handshake proofs.Compose_p2p.
+
+(* C04 o C14.  Such a history is well formed (C04_exact_responder / C04_exact_initiator: the enrolled
+   address is F of the peer id, so it is a function of the peer id), or else the history itself exhibits
+   two different transport identities to which F gives one and the same address (for F =
+   GetEthAddressFromPeerID that is two different public keys with one Keccak-derived address:
+   C18_identity_collision_is_key_collision). *)
+Theorem C14_wf_from_handshake :
+  forall (enc_pid enc_addr : bytes -> N),
+  (forall x y, enc_pid x = enc_pid y -> x = y) -> (forall x y, enc_addr x = enc_addr y -> x = y) ->
+  forall (F : bytes -> option bytes) evs,
+  Compose_p2p.from_handshakes enc_pid enc_addr F evs ->
+  wf evs \/ Compose_p2p.address_collision enc_pid F evs.
+Proof. exact Compose_p2p.wf_from_handshake. Qed.
+Print Assumptions C14_wf_from_handshake.
+
+(* C04 o C14.  Hence C14_inverse, C14_registered_iff, C14_no_panic and C14_handlers hold for every such
+   history with no premise left (every handler invocation was moreover handed an (address, role) that a
+   handshake on that very peer id proved) -- or else that collision is exhibited. *)
+Theorem C14_registry_consistent_after_handshakes :
+  forall (enc_pid enc_addr : bytes -> N),
+  (forall x y, enc_pid x = enc_pid y -> x = y) -> (forall x y, enc_addr x = enc_addr y -> x = y) ->
+  forall (F : bytes -> option bytes) evs,
+  Compose_p2p.from_handshakes enc_pid enc_addr F evs ->
+  ((forall p pe, get p (overlays (run evs)) = Some pe -> get (p_addr pe) (underlays (run evs)) = Some p) /\
+   (forall a p, get a (underlays (run evs)) = Some p ->
+                exists pe, get p (overlays (run evs)) = Some pe /\ p_addr pe = a) /\
+   (forall p, registered (run evs) p = true <-> exists k, open_enrolled evs (p, k) = true) /\
+   panicked (run evs) = false /\
+   (forall s p pe f, In (s, p, pe, f) (started (run evs)) ->
+      f = true /\ exists k, In (Enrol (p, k) pe false) evs /\
+                            Compose_p2p.enrolled_by_handshake enc_pid enc_addr F (p, k) pe))
+  \/ Compose_p2p.address_collision enc_pid F evs.
+Proof. exact Compose_p2p.registry_consistent_after_handshakes. Qed.
+Print Assumptions C14_registry_consistent_after_handshakes.
+
+(* C04 o C14.  With an address function that separates peer ids, [wf] holds outright. *)
+Theorem C14_wf_from_handshake_inj :
+  forall (enc_pid enc_addr : bytes -> N),
+  (forall x y, enc_pid x = enc_pid y -> x = y) -> (forall x y, enc_addr x = enc_addr y -> x = y) ->
+  forall (F : bytes -> option bytes) evs,
+  Compose_p2p.from_handshakes enc_pid enc_addr F evs ->
+  (forall p p' A, F p = Some A -> F p' = Some A -> p = p') -> wf evs.
+Proof. exact Compose_p2p.wf_from_handshake_inj. Qed.
+Print Assumptions C14_wf_from_handshake_inj.
+
+(* C04 o C14.  In model/Handshake.v the outcome of peers.addPeer is an oracle value ([add]); here it is what
+   this registry model answers ([Compose_p2p.add_of], from [enrol_result]).  The two models of the tail of
+   handleConnectReq agree: Handshake's inbound effects contain notifier.Connected exactly when
+   [inbound_announces] says so, hence exactly when this very call created the peer's registry entry (not
+   registered before, registered afterwards); the effects are then [Register; Notify] in that order and the
+   connection was open.  Non-vacuity: Compose_p2p.ex_notify. *)
+Theorem C14_notify_iff_registered_now : forall evs c pe closed A T,
+  wf (evs ++ [Enrol c pe closed]) ->
+  let effs := Handshake.handle_connect_req true (Compose_p2p.add_of (run evs) c pe closed) (Handshake.Enrol A T) in
+  (In (Handshake.ENotify A T) effs <->
+   registered (run evs) (remote c) = false /\
+   registered (run (evs ++ [Enrol c pe closed])) (remote c) = true) /\
+  (In (Handshake.ENotify A T) effs ->
+   effs = [Handshake.ERegister A T; Handshake.ENotify A T] /\ closed = false).
+Proof. exact Compose_p2p.notify_iff_registry_registered_now. Qed.
+Print Assumptions C14_notify_iff_registered_now.
